@@ -60,6 +60,7 @@ OUT = opt("out", "/tmp/dbg/neutral_sweep.jsonl")
 ONLY = opt("files", "")
 OPS = opt("ops", "")
 NOTESTS = "--notests" in ARGS
+DOUBLE = "--double" in ARGS
 
 
 def sh(cmd, cwd=None, timeout=300):
@@ -414,6 +415,21 @@ def main():
             if r is None:
                 return None
             t, before, after = r
+            if DOUBLE:
+                # a second, different rewrite inside the same function of the already rewritten module
+                rng2 = random.Random(hash((rel, line, op, SEED, 2)) & 0xFFFF)
+                more = [c2 for c2 in sites(t, known) if c2[3] == fn and c2[1] != op and c2[1] not in ("add-log", "extract-const")]
+                rng2.shuffle(more)
+                for path2, op2, _l2, _f2 in more[:5]:
+                    try:
+                        r2 = transform(t, path2, op2, rng2, known)
+                    except Exception:  # noqa: BLE001
+                        r2 = None
+                    if r2 is not None:
+                        t, b2, _a2 = r2
+                        before = f"{before} ++ [{op2}] {b2}"
+                        op = f"{op}+{op2}"
+                        break
             src = ast.unparse(t)
             compile(src, rel, "exec")
         except Exception as e:  # noqa: BLE001
